@@ -39,9 +39,11 @@ SHAPES = {
     "onelead": dict(nt=3, nl=1, ns=3, prob=True, ens=True),
     "single": dict(nt=1, nl=1, ns=1, prob=True, ens=True),
     "miss": dict(nt=3, nl=3, ns=3, prob=True, ens=True),
+    "mixed": dict(nt=3, nl=3, ns=3, prob=True, ens=True),      # file b has only obs and fcst: probabilistic fields exist in one input only
 }
 VARIANTS = [[], ["-r", "0,2,5"], ["-r", "0,2,5", "-b", "within"], ["-agg", "median"], ["-q", "0.1,0.9"], ["-r", "2", "-b", "below="],
-            ["-r", "1,3", "-b", "=within="], ["-agg", "0.9", "-r", "0,2,5"]]
+            ["-r", "1,3", "-b", "=within="], ["-agg", "0.9", "-r", "0,2,5"], ["-agg", "max", "-r", "0,100,200", "-b", "within"],
+            ["-agg", "range", "-r", "100", "-b", "above"]]
 
 
 def write_file(path, rng, nt, nl, ns, prob, ens, blank=None):
@@ -74,7 +76,8 @@ def make_files(tmp, seed):
     for k, v in SHAPES.items():
         # all-missing slices: lead time 6 missing everywhere in file a, location 11 in file b
         write_file(os.path.join(tmp, "%s_a.txt" % k), rng, blank=(1, 6) if k == "miss" else None, **v)
-        write_file(os.path.join(tmp, "%s_b.txt" % k), rng, blank=(2, 11) if k == "miss" else None, **v)
+        vb = dict(v, prob=False, ens=False) if k == "mixed" else v
+        write_file(os.path.join(tmp, "%s_b.txt" % k), rng, blank=(2, 11) if k == "miss" else None, **vb)
 
 
 _W = {}
@@ -193,6 +196,16 @@ def _explore(out, tier, seed, facts, replay, tmp):
         for ty in TYPES:
             for ax in AXES:
                 jobs.add((s, rng.choice(names), ax, ty, ()))
+    # conditional axes (-x obs / -x fcst) with every aggregator variant, for the metrics that take fields
+    for n in ("obs", "fcst", "pit", "mae"):
+        for ax in ("obs", "fcst", "threshold"):
+            for v in VARIANTS:
+                for ty in ("text", "plot"):
+                    jobs.add(("full", n, ax, ty, tuple(v)))
+    # inputs with different columns: every name at least once on the mixed dataset (cheap text output)
+    for n in names:
+        jobs.add(("mixed", n, None, "text", ()))
+        jobs.add(("mixed", n, None, "plot", ()))
     jobs = sorted(jobs, key=lambda j: (j[0], j[1], j[2] or "", j[3], j[4]))
     rng.shuffle(jobs)
     counts = {"ok": 0, "exit": 0, "exception": 0, "silent-exit": 0}
